@@ -25,7 +25,7 @@ def queries():
                     # The finding's input class (a unit > 0x10FFFF under substitute_invalid / check_validity) is assumed away here, so every OTHER
                     # violation of this pair still fails; the query kf_* below re-establishes the finding itself on every run.
                     d['KF_EXCLUDE_OUT_OF_RANGE'] = 1; d.pop('EXPECT_THROW', None)
-                qs.append(Q('conv_%s_%s_m%d_%s' % (src, dst, mode, tier), 'conv.c', 'utf.cpp', defs=d, unwind=n + 2, hunwind=max(4 * n + 4, 18), tiers=(tier,),
+                qs.append(Q('conv_%s_%s_m%d_%s' % (src, dst, mode, tier), 'conv.c', 'utf.cpp', mem_gb=10, defs=d, unwind=n + 2, hunwind=max(4 * n + 4, 18), tiers=(tier,),
                             bound={'pair': '%s->%s' % (src, dst), 'max_units': n, 'mode': mode}, timeout=400 if tier == 'quick' else 1800))
     for src, dst in sorted(cc.IDENTITY):
         for mode in (1, 2):
